@@ -43,4 +43,28 @@ def inject (n : Nat) (ds : List Diag) : Option (List (Nat × List Nat)) :=
         some (k + 1, (List.range ds.length).filter fun i => linesLast (diagPositions (ds.getD i default)) = k + 1)
       else none)
 
+/-! ### the caret row -/
+
+/-- `disablePoints[i]`: an earlier diagnostic has the same (unclamped) column range -/
+def pointsDisabled (ds : List Diag) (i : Nat) : Bool :=
+  (List.range i).any fun j =>
+    (ds.getD j default).firstCol == (ds.getD i default).firstCol && (ds.getD j default).lastCol == (ds.getD i default).lastCol
+
+def insideAt (dps : List PR) (l c : Nat) : Bool := dps.any fun p => p.line == l && p.first ≤ c && c ≤ p.last
+def beforeAt (dps : List PR) (l c : Nat) : Bool := dps.any fun p => p.line == l && c < p.first
+
+/-- the characters written under line `l` for a diagnostic with selected positions `dps`: one per rune of the line
+(`offs` = the 0-based byte offset of every rune, which is what `for columnIndex, r := range line` yields): `^` inside a
+position, a blank before one (or inside, when the points are disabled), nothing after the last one -/
+def caretRow (dps : List PR) (disabled : Bool) (l : Nat) (offs : List Nat) : List Char :=
+  offs.filterMap fun o =>
+    if insideAt dps l (o + 1) && !disabled then some '^'
+    else if insideAt dps l (o + 1) || beforeAt dps l (o + 1) then some ' '
+    else none
+
+/-- the rows of all diagnostics whose message is written under line `l` -/
+def caretRows (ds : List Diag) (l : Nat) (offs : List Nat) : List (Nat × List Char) :=
+  ((List.range ds.length).filter fun i => linesLast (diagPositions (ds.getD i default)) = l).map fun i =>
+    (i, caretRow (diagPositions (ds.getD i default)) (pointsDisabled ds i) l offs)
+
 end Pint.Inject
